@@ -8,6 +8,7 @@ import (
 	"io/fs"
 	"os"
 	"path/filepath"
+	"sort"
 	"time"
 )
 
@@ -696,6 +697,153 @@ func GoodNamedResult(d *D, files map[string][]byte) (err error) {
 		if err = os.RemoveAll(*d.prev); err != nil {
 			return err
 		}
+	}
+	d.prev = &v
+	return nil
+}
+
+// ---- steps in helpers / other enumeration of the file map ------------------------
+
+func fill(d *D, v string, files map[string][]byte) error {
+	if err := os.MkdirAll(v, 0o755); err != nil {
+		return err
+	}
+	for n, b := range files {
+		if err := os.WriteFile(filepath.Join(v, n), b, 0o600); err != nil {
+			return err
+		}
+	}
+	return nil
+}
+
+func fillSloppy(d *D, v string, files map[string][]byte) error {
+	if err := os.MkdirAll(v, 0o755); err != nil {
+		return err
+	}
+	for n, b := range files {
+		if err := os.WriteFile(filepath.Join(v, n), b, 0o600); err != nil {
+			fmt.Println("skipping", n)
+		}
+	}
+	return nil
+}
+
+func swap(d *D, v string) error {
+	tmp := d.target + ".new"
+	if err := os.Remove(tmp); err != nil && !errors.Is(err, fs.ErrNotExist) {
+		return err
+	}
+	if err := os.Symlink(v, tmp); err != nil {
+		return err
+	}
+	return os.Rename(tmp, d.target)
+}
+
+func dropPrev(d *D) error {
+	if d.prev == nil {
+		return nil
+	}
+	return os.RemoveAll(*d.prev)
+}
+
+// GoodSplitHelpers: the reference shape split into helpers (tail calls included).
+func GoodSplitHelpers(d *D, files map[string][]byte) error {
+	v := fresh(d)
+	if err := fill(d, v, files); err != nil {
+		return err
+	}
+	if err := swap(d, v); err != nil {
+		return err
+	}
+	if err := dropPrev(d); err != nil {
+		return err
+	}
+	d.prev = &v
+	return nil
+}
+
+// BadHelperSwallows: the helper goes on after a failed write.
+func BadHelperSwallows(d *D, files map[string][]byte) error {
+	v := fresh(d)
+	if err := fillSloppy(d, v, files); err != nil {
+		return err
+	}
+	if err := swap(d, v); err != nil {
+		return err
+	}
+	if err := dropPrev(d); err != nil {
+		return err
+	}
+	d.prev = &v
+	return nil
+}
+
+// BadHelperOrder: the previous version is dropped before the swap.
+func BadHelperOrder(d *D, files map[string][]byte) error {
+	v := fresh(d)
+	if err := fill(d, v, files); err != nil {
+		return err
+	}
+	if err := dropPrev(d); err != nil {
+		return err
+	}
+	if err := swap(d, v); err != nil {
+		return err
+	}
+	d.prev = &v
+	return nil
+}
+
+// GoodSortedKeys: files written in sorted name order.
+func GoodSortedKeys(d *D, files map[string][]byte) error {
+	v := fresh(d)
+	if err := os.MkdirAll(v, 0o755); err != nil {
+		return err
+	}
+	names := make([]string, 0, len(files))
+	for n := range files {
+		names = append(names, n)
+	}
+	sort.Strings(names)
+	for _, n := range names {
+		if err := os.WriteFile(filepath.Join(v, n), files[n], 0o600); err != nil {
+			return err
+		}
+	}
+	if err := swap(d, v); err != nil {
+		return err
+	}
+	if err := dropPrev(d); err != nil {
+		return err
+	}
+	d.prev = &v
+	return nil
+}
+
+// BadSortedKeysFiltered: some names are left out when the names are collected.
+func BadSortedKeysFiltered(d *D, files map[string][]byte) error {
+	v := fresh(d)
+	if err := os.MkdirAll(v, 0o755); err != nil {
+		return err
+	}
+	var names []string
+	for n := range files {
+		if len(files[n]) == 0 {
+			continue
+		}
+		names = append(names, n)
+	}
+	sort.Strings(names)
+	for _, n := range names {
+		if err := os.WriteFile(filepath.Join(v, n), files[n], 0o600); err != nil {
+			return err
+		}
+	}
+	if err := swap(d, v); err != nil {
+		return err
+	}
+	if err := dropPrev(d); err != nil {
+		return err
 	}
 	d.prev = &v
 	return nil
